@@ -187,6 +187,17 @@ def run(res, replay=None):
                       'added_events': [{'type': 'PopulationSplit', 'time': 0.5, 'derived': 'c', 'ancestral': 'b', 'multiplier': 64},
                                        {'type': 'PopulationSplit', 'time': 0.5, 'derived': 'b', 'ancestral': 'a', 'multiplier': 100}],
                       'explicit_demography': True})
+    if not replay:
+        # designed (seed-independent): schedules whose time keys are WRITTEN in an order that is not ascending (descending, middle first), for
+        # every event class that takes a mapping from times to values: the change in force at t is the most recent one at or before t
+        for order in (['2.0', '0.5', '1.0'], ['1.0', '2.0', '0.5'], ['2.0', '1.0', '0.5']):
+            rate = {t: {'0.5': 1.0, '1.0': 4.0, '2.0': 0.25}[t] for t in order}
+            size = {t: {'0.5': 2.0, '1.0': 0.5, '2.0': 8.0}[t] for t in order}
+            base = {'pop_sizes': {'a': {'0.0': 1.0}, 'b': {'0.0': 2.0}}, 'migration_rates': {'a>b': {'0.0': 0.5}, 'b>a': {'0.0': 0.125}}}
+            specs.append(dict(base, events=[{'type': 'SymmetricMigrationRateChanges', 'pops': ['a', 'b'], 'rate': rate}]))
+            specs.append(dict(base, events=[{'type': 'MigrationRateChanges', 'rates': {'a>b': rate}}, {'type': 'PopSizeChanges', 'pop_sizes': {'b': size}}]))
+            specs.append(dict(base, events=[{'type': 'DiscreteRateChanges', 'pop_sizes': {'a': size}, 'migration_rates': {'b>a': rate}}]))
+            specs.append({'pop_sizes': {'a': dict({'0.0': 1.0}, **size), 'b': {'0.0': 2.0}}, 'migration_rates': {'a>b': dict(rate, **{'0.0': 0.5}), 'b>a': {'0.0': 0.125}}})
     NE = 14
     lookups = [0.0, 0.125, 0.25, 0.3, 0.5, 0.75, 1.0, 1.25, 1.5, 2.0, 2.5, 3.0, 7.0]
     cases = [{'spec': s, 'n_epochs': NE, 'lookup': rng.sample(lookups, 6)} for s in specs]
